@@ -81,13 +81,32 @@ def check(hyps, goal, timeout_ms=20000, expect='unsat', use_cvc5=True, want_mode
                     model = s2.model()
         except z3.Z3Exception:
             pass
-    if res == 'unknown' and use_cvc5 and os.path.exists(CVC5):
+    if res == 'unknown' and use_cvc5:
+        # other installed solvers on the SMT-LIB dump: the Debian z3 4.8.12 (different heuristics from the
+        # 5.1 wheel: it decides several quantified nonlinear obligations the wheel leaves open), then cvc5
         smt2 = s.to_smt2()
-        r3 = run_cvc5(smt2, timeout_ms)
-        if r3 in ('sat', 'unsat'):
-            res = r3
-            backend = 'cvc5'
+        r3 = run_cli(['/usr/bin/z3', f'-T:{max(1, int(timeout_ms / 1000))}'], smt2, timeout_ms)
+        if r3 == 'unsat':
+            res, backend = r3, 'z3-4.8.12-cli'
+        elif os.path.exists(CVC5):
+            r4 = run_cvc5(smt2, timeout_ms)
+            if r4 == 'unsat':
+                res, backend = r4, 'cvc5'
     return res, time.time() - t0, backend, model, smt2
+
+
+def run_cli(cmd, smt2, timeout_ms):
+    with tempfile.NamedTemporaryFile('w', suffix='.smt2', delete=False) as fh:
+        fh.write(smt2)
+        path = fh.name
+    try:
+        p = subprocess.run(cmd + [path], capture_output=True, text=True, timeout=timeout_ms / 1000 + 10)
+        out = p.stdout.strip().splitlines()
+        return out[0].strip() if out else 'unknown'
+    except Exception:  # noqa
+        return 'unknown'
+    finally:
+        os.unlink(path)
 
 
 def run_cvc5(smt2, timeout_ms):
